@@ -1,5 +1,6 @@
 """C12 -- precedence and associativity annotations yield the documented operator grammar
 (clause: the associativity table, the substitution step and the attribute vocabulary)."""
+import json
 import re
 
 from . import core, symex
@@ -177,6 +178,71 @@ def run(tier):
            "`none` does not send every recursive occurrence to the previous (tighter) level", key="table:none", file=tb.relfile(), line=tb.line, fn=tb.path)
     rep.ob("table.all", "all -> %s" % (A,), A[0] == "Every" and L[1] is not None and A[1] == (L[1][0],),
            "`all` does not keep every recursive occurrence at the current level", key="table:all", file=tb.relfile(), line=tb.line, fn=tb.path)
+    # ---- (4b) the inheritance fold: reset on every precedence attribute; extraction independent of attribute order
+    nested = [b for p, b in f.bodies.items() if p.startswith(P + "expand_nonterm::{closure") and b.kind != "promoted"]
+    lvl_parses = []
+    for b in nested:
+        for bi, t2 in b.calls():
+            if (callee_of(t2) or "").endswith("<impl str>::parse") and re.search(r"\bu(32|size|64)\b", core.callee_args(t2)):
+                lvl_parses.append((b, bi, t2))
+    rep.floor("places that parse a precedence level inside the fold", len(lvl_parses), 1)
+    for b, bi, t2 in lvl_parses:
+        dflt = {x for x, t3 in b.calls() if (callee_of(t3) or "").endswith("precedence::Assoc as std::default::Default>::default")}
+        reach = b.reachable(b.succ[bi], removed_blocks=dflt)
+        esc = [x for x in b.return_blocks() if x in reach]
+        rep.ob("fold.precedence-resets-associativity", "%s: level parsed at line %d, Assoc::default() at blocks %s" % (b.path.split("precedence::")[-1], t2["ln"], sorted(dflt)),
+               bool(dflt) and not esc,
+               "after a `#[precedence]` attribute is read there is a path on which the associativity is not reset to the default (`all`): "
+               "an alternative that restates a level without `#[assoc]` inherits left/right/none from the previous alternative",
+               key="fold:reset-conditional", file=b.relfile(), line=t2["ln"], fn=b.path)
+    # a per-attribute closure (FnMut) that handles both attribute names must not let one arm overwrite what the other arm sets
+    n_two = 0
+    for b in nested:
+        arms = {}
+        for bi, t2 in b.calls():
+            if not (callee_of(t2) or "").endswith("::eq") or len(t2["args"]) != 2:
+                continue
+            names = set()
+            for a in t2["args"]:
+                for d in origins(b, a, transparent=lambda c: "all" if c else None, facts=f):
+                    if d[0] == "const":
+                        try:
+                            names.add(json.loads(d[1]).get("str"))
+                        except (ValueError, AttributeError):
+                            pass
+            names &= {"precedence", "assoc"}
+            if len(names) != 1 or t2.get("t") is None:
+                continue
+            sw = b.blocks[t2["t"]]["t"]
+            if sw["k"] != "switch":
+                continue
+            tgt = [x for v, x in sw["targets"] if v != 0] + ([sw["otherwise"]] if any(v == 0 for v, _ in sw["targets"]) else [])
+            region = set()
+            for x in tgt:
+                region |= {y for y in range(len(b.blocks)) if b.dominates(x, y)}
+            cells = set()
+            for y in region:
+                for st in b.blocks[y]["s"]:
+                    if st["k"] != "assign" or not st["p"]["pr"] or st["p"]["pr"][0][0] != "deref":
+                        continue
+                    base = st["p"]["l"]
+                    if base == 1 and len(st["p"]["pr"]) > 1 and st["p"]["pr"][1][0] == "field":
+                        cells.add(st["p"]["pr"][1][1])
+                    for _, si, d in b.defs.get(base, []):
+                        if si != "t" and d["r"]["k"] == "use" and d["r"]["o"].get("p", {}).get("l") == 1:
+                            fl = [e[1] for e in d["r"]["o"]["p"]["pr"] if e[0] == "field"]
+                            if fl:
+                                cells.add(fl[0])
+            arms[names.pop()] = cells
+        if len(arms) == 2:
+            n_two += 1
+            both = arms["precedence"] & arms["assoc"]
+            rep.ob("fold.attribute-order-independent", "%s: precedence arm writes captured %s, assoc arm writes captured %s" % (b.path.split("precedence::")[-1], sorted(arms["precedence"]), sorted(arms["assoc"])),
+                   not both,
+                   "one pass over the attribute list lets the `precedence` arm and the `assoc` arm assign the same captured variable: the result depends on the "
+                   "order in which the two attributes are written (`#[assoc(side=\"none\")] #[precedence(level=\"1\")]` loses its side)",
+                   key="fold:attribute-order", file=b.relfile(), line=b.line, fn=b.path)
+    rep.analysed["single_pass_attribute_closures"] = n_two
     # ---- (5) levels sorted + dedup
     en = f.one("^" + re.escape(P + "expand_nonterm") + "$")
     srt = [bi for bi, t2 in en.calls() if re.search(r"slice::<impl \[T\]>::sort(_unstable)?$", callee_of(t2) or "")]
